@@ -117,19 +117,19 @@ def sample_filter(case):
 
 
 @st.composite
-def many_strategy(draw):
+def many_strategy(draw, nsched=2):
     case = draw(scale.many_queries_case(two_part=draw(st.booleans()), counts=(257, 300)))
     case["mode"] = draw(st.sampled_from(["all", "all", "separate", "joined"]))
     hs = st.integers(1, 4294967295)
-    case["schedules"] = [(2, draw(st.integers(1, 10 ** 6)), draw(hs)), (draw(st.sampled_from([3, 4, 16])), draw(st.integers(1, 10 ** 6)), draw(hs))]
+    case["schedules"] = [(2, draw(st.integers(1, 10 ** 6)), draw(hs)), (draw(st.sampled_from([3, 4, 16])), draw(st.integers(1, 10 ** 6)), draw(hs))][:nsched]
     return case
 
 
 def subchecks(tier):
     q = tier == "quick"
     n = 6 if q else 10
-    return [Sub("schedules", "hyp", check, strategy=lambda: strategy(n), examples=32 if q else 240, shrink_budget=4,
+    return [Sub("schedules", "hyp", check, strategy=lambda: strategy(n), examples=24 if q else 240, shrink_budget=4,
                 sample_filter=sample_filter, time_budget_s=3000, required_classes=("order-inverted", "cpus=16", "hashseed-varied")),
-            Sub("many-queries", "hyp", check, strategy=many_strategy, examples=1 if q else 16, shrink_budget=0, skip_first=True, shards=1 if q else 16,
+            Sub("many-queries", "hyp", check, strategy=lambda: many_strategy(1 if q else 2), examples=1 if q else 16, shrink_budget=0, skip_first=True, shards=1 if q else 16,
                 sample_filter=scale.short, time_budget_s=3000,
                 describe="257-300 query molecules (more than any batch size tied to --cpus), -c 1 vs -c 2 and -c 3..16, side files compared too")]
